@@ -78,8 +78,58 @@ def table_obligations(tier, seed):
         yield tag + '.positive_at_2', f2.a > 0, 'f(2) in [%s, %s]' % (f2.a, f2.b), {'element': el, 'f(2)': float(f2.a)}
 
 
+def bounded_formfactor_native():
+    """the real FormFactor on the argument kinds a caller uses for 'a fine grid in [0, 2]': Python floats and ints, numpy
+    scalars, arrays (float64 / float32 / int); results of earlier calls are kept and re-examined after later calls"""
+    import numpy as np
+    from xfab import structure, atomlib
+    els = sorted(atomlib.formfactor)
+    kept = []
+
+    def spec(el, s):
+        d = atomlib.formfactor[el]
+        s = np.asarray(s, dtype=np.float64)
+        return sum(d[i] * np.exp(-d[i + 4] * s * s) for i in range(4)) + d[8]
+
+    def f(rng):
+        el = rng.choice(els)
+        kind = rng.choice(['float', 'int', 'npint', 'np32', 'array', 'array', 'intarray', 'array2d'])
+        if kind == 'float':
+            s = rng.choice([0.0, rng.uniform(0, 2)])
+        elif kind == 'int':
+            s = rng.choice([0, 1, 2])
+        elif kind == 'npint':
+            s = np.int64(rng.choice([0, 1, 2]))
+        elif kind == 'np32':
+            s = np.float32(rng.choice([0.0, 0.25, 0.5, 1.5]))
+        elif kind == 'array':
+            s = np.linspace(0, 2, rng.choice([5, 5, 21]))
+        elif kind == 'intarray':
+            s = np.arange(3)
+        else:
+            s = np.linspace(0, 2, 6).reshape(2, 3)
+        got = structure.FormFactor(el, s)
+        want = spec(el, s)
+        tol = 1e-6 if kind == 'np32' else 1e-9
+        if np.shape(got) != np.shape(want) or not np.allclose(np.asarray(got, float), want, rtol=tol, atol=tol):
+            return {'element': el, 'stl': np.asarray(s).tolist(), 'stl_kind': kind, 'returned': np.asarray(got, float).tolist(),
+                    'expected': np.asarray(want).tolist(), 'problem': 'FormFactor is not sum a_i exp(-b_i s^2) + c'}
+        for (el0, s0, got0, want0) in kept:
+            if not np.allclose(np.asarray(got0, float), want0, rtol=1e-9, atol=1e-9):
+                del kept[:]
+                return {'element': el0, 'stl': np.asarray(s0).tolist(), 'problem': 'a result returned earlier changed after a later call',
+                        'later_call': [el, np.asarray(s).tolist()], 'value_now': np.asarray(got0, float).tolist(), 'expected': np.asarray(want0).tolist()}
+        if isinstance(got, np.ndarray):
+            kept.append((el, s, got, want))
+            del kept[:-6]
+    return f
+
+
 def units(tier):
     return [FuncUnit('structure', 'FormFactor'),
+            BoundedUnit('structure.FormFactor_argument_kinds', bounded_formfactor_native(), 1500, 30000,
+                        'FormFactor(element, s) for s a float / int / numpy scalar / float64, float32, int arrays of several shapes equals the '
+                        'nine-coefficient formula; array results stay valid after later calls'),
             GroundUnit('atomlib.formfactor', table_obligations, [{'module': 'atomlib', 'name': 'formfactor (94 entries)'}])]
 
 
